@@ -89,3 +89,13 @@ def drop_last(log):
 
 def both_tests(a, lo, hi):
     return 1 if lo <= a and a <= hi else 0
+
+
+def strip_ok(s):
+    t = s.rstrip("#b")
+    return len(t) <= len(s) and (len(t) == 0 or t[-1] not in "#b")
+
+
+def strip_bad(s):
+    t = s.strip("#b")
+    return t == s[:1]
